@@ -7,7 +7,7 @@ A3 no check-then-act creation of a shared path (exists() guarding an in-place cr
 """
 import ast
 
-from ..engine.program import AnalysisError, dotted, src, walk_no_nested, call_name, enclosing_function
+from ..engine.program import AnalysisError, dotted, src, walk_no_nested, call_name, enclosing_function, enclosing_stmt
 from ..engine import flow
 
 TOLERATED = {"ValueError", "json.JSONDecodeError", "JSONDecodeError", "json.decoder.JSONDecodeError", "Exception", "BaseException"}
@@ -154,7 +154,68 @@ class Analyser:
         return res
 
 
+def a5(prog, ctx):
+    """Only an artefact this run has just derived from the key's input is registered in a per-user cache."""
+    from ..engine import dataflow
+    n = 0
+    prog_funcs = {q.split(".")[-1] for _m, q, _f in prog.all_functions()}
+    for m, q, f in prog.all_functions():
+        for c in walk_no_nested(f):
+            if not (isinstance(c, ast.Call) and (call_name(c) or "").split(".")[-1].startswith("store_") and c.args):
+                continue
+            sname = call_name(c).split(".")[-1]
+            if sname not in prog_funcs or q.split(".")[-1] == sname:
+                continue
+            n += 1
+            v = c.args[0]
+            st = enclosing_stmt(c)
+            if not isinstance(v, ast.Name):
+                ctx.fail("A5", c, q, src(c), "the registered artefact is not a local whose origin can be followed")
+                continue
+            defs = dataflow.local_defs(f)
+            rd = dataflow.reaching_defs(f, v.id, st, defs)
+            bad = []
+            for kind, val, dst in rd:
+                cn = (call_name(val) or "") if isinstance(val, ast.Call) else ""
+                last = cn.split(".")[-1]
+                if kind == "assign" and last in prog_funcs and not last.startswith("find_") and not last.startswith("store_"):
+                    continue                                   # produced by this run (index_reference, align_fasta, ...)
+                if kind == "assign" and isinstance(val, ast.Call) and cn in ("os.path.join", "os.path.abspath") and "args.output" in src(val):
+                    blk = st._parent
+                    conv = [x for x in getattr(blk, "body", []) if isinstance(x, ast.Expr) and isinstance(x.value, ast.Call)
+                            and (call_name(x.value) or "").split(".")[-1] in prog_funcs
+                            and not (call_name(x.value) or "").split(".")[-1].startswith(("store_", "find_"))
+                            and any(src(a) == v.id for a in x.value.args) and dst.lineno <= x.lineno < st.lineno]
+                    if conv and dst._parent is blk:
+                        continue                               # fresh path in the output folder, filled by a converter call right here
+                bad.append((kind, val, dst))
+            if bad:
+                bad.sort(key=lambda b: (isinstance(b[1], ast.Constant), b[2].lineno))
+                kind, val, dst = bad[0]
+                ctx.fail("A5", c, q, "%s with %s = %s" % (src(c), v.id, src(val)[:60]),
+                         "%s registers `%s` in the per-user cache under this run's input key, but on some path `%s` is %s (line %d), which this "
+                         "run did not derive from that input: another run with the same input would be handed a file that does not "
+                         "correspond to it" % (sname, v.id, v.id, src(val)[:60], dst.lineno))
+            else:
+                ctx.ok("A5", "%s:%d" % (m.rel, c.lineno), "%s: %s registers only what this run produced (%s)"
+                       % (q, sname, "; ".join(src(d[1])[:40] for d in rd)))
+    ctx.floor("A5", "cache registration call sites", n, 3)
+    # the annotation-db cache registers inline in convert_db: the registration must follow the conversion in the same block
+    cd = prog.func("src/gtf2db.py", "convert_db")
+    regs = [st_ for st_ in cd.body if isinstance(st_, ast.Assign) and isinstance(st_.targets[0], ast.Subscript)
+            and src(st_.targets[0].value) == "converted_gtfs"]
+    convs = [st_ for st_ in cd.body if isinstance(st_, ast.If) and "convert_fn(" in src(st_)]
+    if len(regs) != 1 or not convs or convs[-1].lineno > regs[0].lineno:
+        ctx.fail("A5", cd, "convert_db", "converted_gtfs[...] = ...", "the annotation cache entry is not registered right after this run's own conversion")
+    else:
+        ctx.ok("A5", "src/gtf2db.py:%d" % regs[0].lineno, "convert_db registers the entry after its own convert_fn call; earlier returns hand out validated entries")
+
+
 def run(prog, ctx):
+    ctx.rule("A5", "every store_*(artefact, ...) call registers a local whose every reaching definition is a producer call of this run "
+                   "(or a fresh path under args.output filled by a converter call in the same block); user-supplied or looked-up files "
+                   "are never registered under the input's key")
+    a5(prog, ctx)
     ctx.rule("A1", "every write to a shared per-user cache file is an atomic publish: content goes to a temporary sibling and is "
                    "moved over the shared path with os.replace; never open(shared, 'w') + json.dump in place (directly or via a helper)")
     ctx.rule("A2", "every json.load of a shared cache file sits in try blocks that treat a missing or undecodable file as absent")
